@@ -35,6 +35,8 @@ def gen(rng, tier, run):
         size *= n
     nds = rng.choice([1, 1, 2, 3])
     alpha = 10 ** rng.uniform(-4, -0.02) if rng.random() < 0.8 else rng.choice([0.01, 0.05, 0.5])
+    if rng.random() < 0.06:
+        alpha = 10 ** rng.uniform(-40, -12)      # very strict levels: 1 - alpha/2 rounds to 1, alpha/2 does not round to 0
     ndf = None if rng.random() < 0.5 else rng.choice([1, 2, 5, 30, 1000, rng.randrange(1, 10000),
                                                       # degrees of freedom need not be whole numbers (Welch-Satterthwaite)
                                                       1.5, 2.75, round(rng.uniform(1.0, 40.0), 2)])
@@ -188,7 +190,7 @@ def run_impl(case, run):
         law = norm if ndf is None else tlaw(ndf)
         thr = unbits(out['thr'])
         # the critical value is the two-sided one of the requested law (independent recomputation)
-        out['thr_want'] = bits(float(law.ppf(1.0 - alpha / 2.0)))
+        out['thr_want'] = bits(float(law.isf(alpha / 2.0)))       # (not ppf(1 - alpha/2): that is inf below alpha = 2.2e-16)
         # the p-values are the two-sided tails of the statistic (independent recomputation)
         bad_p = []
         for di, (ts, ps) in enumerate(zip(out['t'], out['p'])):
